@@ -50,6 +50,9 @@ INF == 2000000000
 
 EmptyFn == [x \in {} |-> 0]
 
+\* millisecond stamp of an event (real-time engine; 0 on the virtual clock)
+Ms(e) == IF "ms" \in DOMAIN e THEN e.ms ELSE 0
+
 KeyOf(e) == <<e.db, e.key>>
 
 HoldsOf(mm, k) == IF k \in DOMAIN mm.holds THEN mm.holds[k] ELSE <<>>
@@ -103,7 +106,7 @@ M0 == [ reqs |-> EmptyFn,   \* request id -> record (parameters, st \in {"open",
         taint |-> {},       \* <<key, lid>> pairs with two hold records for one LockId (finding A12): depth is ambiguous there
         nv |-> 0, t |-> 0, tr |-> 0, name |-> "", seq |-> TRUE, status |-> 1 ]
 
-NewHold(r, t) == [ lid |-> r.lid, depth |-> 1, cnt |-> r.cnt, rc |-> r.rc, rids |-> {r.id},
+NewHold(r, t) == [ gms |-> 0, slack |-> 1, exms |-> r.ex, lid |-> r.lid, depth |-> 1, cnt |-> r.cnt, rc |-> r.rc, rids |-> {r.id},
                    lo |-> IF Bit(r.ef, EF_UNLIMITED) THEN INF ELSE t + ExpriedS(r),
                    hi |-> IF Bit(r.ef, EF_UNLIMITED) THEN INF ELSE t + ExpriedS(r),
                    short |-> FALSE, ms |-> Bit(r.ef, EF_MS), since |-> t, aof |-> FALSE ]
@@ -119,7 +122,12 @@ Unanswered(mm) == {id \in DOMAIN mm.reqs : mm.reqs[id].st # "done"}
 StepEnd(mm, e) ==
     IF "complete" \in DOMAIN e /\ e.complete
     THEN LET U == Unanswered(mm)
-         IN Check(mm, U = {}, "C03", "request-never-answered", e, [ids |-> SetToSeq(U)])
+             m1 == Check(mm, U = {}, "C03", "request-never-answered", e, [ids |-> SetToSeq(U)])
+             Ums == {id \in U : mm.reqs[id].cmd = "L" /\ Bit(mm.reqs[id].tf, TF_MS)}
+             m2 == Check(m1, Ums = {}, "C05", "ms-timeout-never-fired", e, [ids |-> SetToSeq(Ums)])
+             Hms == {kk \in DOMAIN mm.holds : \E j \in 1..Len(mm.holds[kk]) : mm.holds[kk][j].ms /\ mm.holds[kk][j].lo < INF}
+         IN IF mm.seq THEN m2
+            ELSE Check(m2, Hms = {} \/ mm.status # 1, "C06", "ms-expiry-never-fired", e, [keys |-> SetToSeq(Hms)])
     ELSE mm
 
 -----------------------------------------------------------------------------
@@ -128,7 +136,7 @@ StepEnd(mm, e) ==
 StepReq(mm, e) ==
     LET r == [id |-> e.id, conn |-> e.conn, cmd |-> e.cmd, db |-> e.db, key |-> e.key, lid |-> e.lid, flag |-> e.flag,
               tf |-> e.tf, ef |-> e.ef, to |-> e.to, ex |-> e.ex, cnt |-> e.cnt, rc |-> e.rc, t |-> e.t,
-              st |-> "open", tq |-> 0, nterm |-> 0, ldr |-> (mm.status = 1)]
+              st |-> "open", tq |-> 0, nterm |-> 0, ldr |-> (mm.status = 1), ms |-> Ms(e)]
     IN [mm EXCEPT !.reqs = SetFn(@, e.id, r), !.t = e.t]
 
 StepRet(mm, e) ==
@@ -195,7 +203,7 @@ LockSucced(mm, e, r, k) ==
              m1 == Check(mq, AdmissibleStmt(H, r.cnt), "C01", "grant-exceeds-count", e,
                          [rid |-> r.id, key |-> r.key, lid |-> r.lid, cnt |-> r.cnt, outstanding |-> DepthSum(H),
                           oldest |-> IF H = <<>> THEN -1 ELSE Head(H).cnt])
-         IN [m1 EXCEPT !.holds = SetFn(@, k, Append(H, NewHold(r, e.t))),
+         IN [m1 EXCEPT !.holds = SetFn(@, k, Append(H, [NewHold(r, e.t) EXCEPT !.gms = IF wasQueued THEN Ms(e) ELSE r.ms, !.slack = IF wasQueued THEN 50 ELSE 1])),
                        !.taint = IF i = 0 THEN @ ELSE @ \cup {<<k, r.lid>>}]
     ELSE \* re-lock by the holder: depth + 1, terms restart (C02 clause: at most Rcount more times)
          LET h  == H[i]
@@ -205,7 +213,7 @@ LockSucced(mm, e, r, k) ==
                              !.lo = IF Bit(r.ef, EF_UNLIMITED) THEN INF ELSE e.t + ExpriedS(r),
                              !.hi = IF Bit(r.ef, EF_UNLIMITED) THEN INF ELSE e.t + ExpriedS(r),
                              !.short = (~Bit(r.ef, EF_UNLIMITED) /\ e.t + ExpriedS(r) < h.lo),
-                             !.ms = Bit(r.ef, EF_MS), !.since = e.t]
+                             !.ms = Bit(r.ef, EF_MS), !.since = e.t, !.gms = r.ms, !.slack = 1, !.exms = r.ex]
          IN [m2 EXCEPT !.holds = SetFn(@, k, [H EXCEPT ![i] = nh])]
 
 \* a lock request with the update flag answered LOCKED_ERROR while its LockId (or, with the show
@@ -224,7 +232,7 @@ LockUpdate(mm, e, r, k) ==
                  THEN [h EXCEPT !.rids = @ \cup {r.id}, !.cnt = r.cnt, !.rc = r.rc,
                                 !.lo = IF d < @ THEN d ELSE @, !.hi = IF d > @ THEN d ELSE @]
                  ELSE [h EXCEPT !.rids = {r.id}, !.cnt = r.cnt, !.rc = r.rc, !.lo = d, !.hi = d,
-                                !.short = (d < h.lo) \/ h.short, !.ms = Bit(r.ef, EF_MS)]
+                                !.short = (d < h.lo) \/ h.short, !.ms = Bit(r.ef, EF_MS), !.gms = r.ms, !.slack = 1, !.exms = r.ex]
        IN [mm EXCEPT !.holds = SetFn(@, k, [H EXCEPT ![i] = nh])]
 
 \* EXPRIED notice for the hold whose terms were last set by request r
@@ -235,8 +243,15 @@ LockExpried(mm, e, r, k) ==
        THEN Report(mm, "C03", "expried-notice-without-hold", e, [rid |-> r.id, key |-> r.key])
        ELSE LET i  == Min(I)
                 h  == H[i]
-                m1 == Check(mm, h.ms \/ e.t >= h.lo, "C06", "expired-early", e,
+                m0 == Check(mm, h.ms \/ e.t >= h.lo, "C06", "expired-early", e,
                             [rid |-> r.id, lid |-> h.lid, t |-> e.t, notbefore |-> h.lo])
+                \* millisecond expiry (real-time engine): lower bound only.  The period is measured from the SEND stamp of
+                \* the request that set the terms (the timer cannot start earlier; 1 ms of truncation tolerated) or, for a
+                \* grant from the queue, from the stamp of its SUCCED reply, which is taken a little after the timer
+                \* started (50 ms measurement tolerance); judged only
+                \* when the terms are certainly those of one request (no update that may have been ignored)
+                m1 == Check(m0, ~h.ms \/ Cardinality(h.rids) # 1 \/ Ms(e) - h.gms >= h.exms - h.slack, "C06", "expired-early-ms", e,
+                            [rid |-> r.id, lid |-> h.lid, after_ms |-> Ms(e) - h.gms, expried_ms |-> h.exms])
                 m2 == Check(m1, h.lo < INF, "C06", "unlimited-hold-expired", e, [rid |-> r.id, lid |-> h.lid])
                 \* C10: a node that is not the leader does not end a replicated (persisted) hold on its own clock
                 \* before 300 s past the deadline
@@ -247,8 +262,10 @@ LockExpried(mm, e, r, k) ==
 \* a queued lock request answered TIMEOUT / cancelled (UNLOCK_ERROR)
 LockTimeout(mm, e, r, k) ==
     LET m1 == IF r.st = "queued"
-              THEN Check(mm, Bit(r.tf, TF_MS) \/ e.t - r.tq >= TimeoutS(r), "C05", "timeout-early", e,
-                         [rid |-> r.id, waited |-> e.t - r.tq, timeout |-> TimeoutS(r)])
+              THEN LET ma == Check(mm, Bit(r.tf, TF_MS) \/ e.t - r.tq >= TimeoutS(r), "C05", "timeout-early", e,
+                                   [rid |-> r.id, waited |-> e.t - r.tq, timeout |-> TimeoutS(r)])
+                   IN Check(ma, ~Bit(r.tf, TF_MS) \/ Ms(e) - r.ms >= r.to - 1, "C05", "timeout-early-ms", e,
+                            [rid |-> r.id, waited_ms |-> Ms(e) - r.ms, timeout_ms |-> r.to])
               ELSE mm
     IN DropFromWq(m1, k, r.id)
 
